@@ -818,7 +818,9 @@ fn judge_robust<V: prio::vdaf::Vdaf, A: Adapter<V>>(plan: &PlanA, pass: &PassOut
             let apspec = &plan.aps[*ap as usize];
             let mine: Vec<&EffFault> = pass.effective.iter().filter(|e| touches(e, *rep, *ap)).collect();
             // the single effective alteration of the run, if it is one the strict oracle covers for THIS job
-            let strict_fault: Option<&EffFault> = if pass.effective.len() == 1 && mine.len() == 1 && !mine[0].exempt && mine[0].site.as_ref().map(|s| ad.strict_applies(s, apspec, &r.meas)).unwrap_or(true) { Some(mine[0]) } else { None };
+            // (only for a report the client built honestly: an in-flight alteration can cancel a Byzantine client's own edit)
+            let honest_client = r.byz.is_empty() && (!r.evil || r.twin.is_some());
+            let strict_fault: Option<&EffFault> = if honest_client && pass.effective.len() == 1 && mine.len() == 1 && !mine[0].exempt && mine[0].site.as_ref().map(|s| ad.strict_applies(s, apspec, &r.meas)).unwrap_or(true) { Some(mine[0]) } else { None };
             let label = pass.byz_labels.get(*rep as usize).and_then(|l| l.iter().find(|x| x.ap == *ap));
             // a round in which EVERY sender's verifier share was replaced by the one it produced for one and the same
             // other report: the combiner then decides about that other report. No VDAF can be robust against a
